@@ -12,6 +12,7 @@ import (
 	"verif/harness/internal/ev"
 	"verif/harness/internal/gen"
 	"verif/harness/internal/oracle"
+	"verif/harness/internal/tape"
 )
 
 // C02 - character passwords uniform over exactly the allowed strings.
@@ -98,6 +99,15 @@ func c02Run(c c02Case) error {
 	valid, ok := sp.ValidStrings(ev.Pick(20000, 200000))
 	if !ok {
 		return &ev.Skip{Why: "cell too large"}
+	}
+	if c.Key%2 == 0 {
+		// half of the cases: recipes easily confused with this one are used first
+		for _, sib := range gen.Siblings(sp) {
+			sr := toRecipe(sib)
+			sr.Alphabet()
+			callRaw(&tape.Tape{TailKey: c.Key | 1}, sr.Generate)
+		}
+		ev.Class("decoy_siblings_first")
 	}
 	r := toRecipe(sp)
 	ref, err := findRef(r, c.Key, 400)
